@@ -13,6 +13,7 @@ nothing is forked per execution.
 from __future__ import annotations
 
 import hashlib
+import heapq
 import importlib
 import json
 import multiprocessing as mp
@@ -110,7 +111,11 @@ class Stats:
                 self.violations.append(v)
         self.violation_count += o.violation_count
         self.violation_sigs.update(o.violation_sigs)
-        self.audit.extend(o.audit)
+        for it in o.audit:
+            if len(self.audit) < AUDIT_KEEP:
+                heapq.heappush(self.audit, it)
+            elif it.d < self.audit[0].d:
+                heapq.heapreplace(self.audit, it)
         for s in o.samples:
             if len(self.samples) < 6:
                 self.samples.append(s)
@@ -118,7 +123,19 @@ class Stats:
         self.extra.update(o.extra)
 
 
-AUDIT_MOD = 257  # 1-in-N executions re-run for the determinism audit
+AUDIT_MOD = 257  # kept for API compatibility (unused)
+AUDIT_KEEP = 300  # executions re-run for the determinism audit (those with the smallest digests)
+
+
+class _AuditItem:
+    """max-heap entry on the digest (so the heap root is the largest kept digest)"""
+    __slots__ = ("d", "cfg_index", "choices")
+
+    def __init__(self, d, cfg_index, choices):
+        self.d, self.cfg_index, self.choices = d, cfg_index, choices
+
+    def __lt__(self, other):
+        return self.d > other.d
 
 
 def _run_exec(run_one, cfg, prefix, expect):
@@ -151,8 +168,11 @@ def _account(stats: Stats, cfg_index, cfg, ctl: Ctl, obs: dict, new_from: int, a
         stats.samples.append({"cfg": cfg, "choices": ctl.choices,
                               "labels": [t[1] for t in ctl.trace][:12],
                               "outcome": obs.get("outcome")})
-    if int(d, 16) % audit_mod == 0 and len(stats.audit) < 400:
-        stats.audit.append((cfg_index, ctl.choices, d))
+    # determinism audit candidates: the AUDIT_KEEP executions with the smallest digests
+    if len(stats.audit) < AUDIT_KEEP:
+        heapq.heappush(stats.audit, _AuditItem(d, cfg_index, ctl.choices))
+    elif d < stats.audit[0].d:
+        heapq.heapreplace(stats.audit, _AuditItem(d, cfg_index, ctl.choices))
 
 
 def _dfs(run_one, cfg_index, cfg, prefix, expect, bound, stats: Stats, audit_mod, budget=None):
@@ -276,7 +296,7 @@ def explore(
                 total.merge(val)
             else:
                 errors.append(f"{tag}: {val}")
-        audit_items = list(total.audit)
+        audit_items = [(it.cfg_index, it.choices, it.d) for it in sorted(total.audit, key=lambda x: x.d)]
         replayed = [_worker_replay(it) for it in audit_items[:300]]
     else:
         ctx = mp.get_context("fork")
@@ -290,7 +310,7 @@ def explore(
                     errors.append(f"{tag}: {val}")
                     if len(errors) > 5:
                         break
-            audit_items = sorted(total.audit, key=lambda x: x[2])[:300]
+            audit_items = [(it.cfg_index, it.choices, it.d) for it in sorted(total.audit, key=lambda x: x.d)][:300]
             # re-run in (most likely) a different worker: reversed order, chunksize 1
             replayed = pool.map(_worker_replay, list(reversed(audit_items)), chunksize=1) if not errors else []
 
